@@ -24,7 +24,7 @@ Qed.
 
 (** * The operational stream is the aggregator run over the cycles of the history *)
 Definition cycles (x : ikind) (dl : bool) (i : inst) (h : list op) : list (list (skey * Z)) :=
-  if is_async x then cycles_async dl i h [] else cycles_sync dl i h [].
+  if is_async x then cycles_async_leaky dl i (normalize h []) [] [] else cycles_sync dl i (normalize h []) [].
 
 Lemma vm_app x a b : vm x (a ++ b) = vm x a ++ vm x b.
 Proof. unfold vm. apply map_app. Qed.
@@ -44,46 +44,60 @@ Proof.
     + apply IH.
   - apply IH.
   - apply IH.
-  - destruct (includes w (is_delta t)); cbn [negb app]; [|apply IH].
+  - unfold collects_ok. destruct (includes w (is_delta t)); cbn [negb app andb]; [|apply IH].
+    destruct (cancelled w); cbn [negb s_regs s_agg s_n app]; [apply IH|].
     cbn [map]. rewrite arun_cons.
     destruct (collect (cfg_of x t) (tm n) (measure_all (cfg_of x t) (vm x cur) a)) as [out a2] eqn:E.
     cbn [fst snd app]. f_equal. apply (IH rs a2 (S n) []).
 Qed.
 
 Lemma srun_async x i t tm h : is_async x = true ->
-  forall rs a n,
-  srun x i t tm h {| s_regs := rs; s_agg := a; s_n := n |} =
-  arun (cfg_of x t) (map (vm x) (cycles_async (is_delta t) i h rs)) tm n a.
+  forall rs a n carry,
+  srun x i t tm h {| s_regs := rs; s_agg := measure_all (cfg_of x t) (vm x carry) a; s_n := n |} =
+  arun (cfg_of x t) (map (vm x) (cycles_async_leaky (is_delta t) i h rs carry)) tm n a.
 Proof.
-  intros Ha. induction h as [|o r IH]; intros rs a n; [reflexivity|].
-  destruct o as [i' k v|c insts|c|w script fl]; cbn [srun sstep cycles_async]; rewrite ?Ha; cbn [orb s_regs s_agg s_n].
+  intros Ha. induction h as [|o r IH]; intros rs a n carry; [reflexivity|].
+  destruct o as [i' k v|c insts|c|w script fl]; cbn [srun sstep cycles_async_leaky]; rewrite ?Ha; cbn [orb s_regs s_agg s_n].
   - apply IH.
   - apply IH.
   - apply IH.
   - destruct (includes w (is_delta t)); cbn [negb app]; [|apply IH].
-    cbn [map]. rewrite arun_cons.
-    destruct (collect (cfg_of x t) (tm n) (measure_all (cfg_of x t) (vm x (delivered rs script i)) a)) as [out a2] eqn:E.
-    cbn [fst snd app]. f_equal. apply IH.
+    destruct (cancelled w); cbn [s_regs s_agg s_n app].
+    + rewrite <- measure_all_app, <- vm_app. apply IH.
+    + cbn [map]. rewrite arun_cons. rewrite <- measure_all_app, <- vm_app.
+      destruct (collect (cfg_of x t) (tm n) (measure_all (cfg_of x t) (vm x (carry ++ delivered rs script i)) a)) as [out a2] eqn:E.
+      cbn [fst snd app]. f_equal. apply (IH rs a2 (S n) []).
 Qed.
 
 Lemma stream_arun x i t t0 tm h :
   stream x i t t0 tm h = arun (cfg_of x t) (map (vm x) (cycles x (is_delta t) i h)) tm 0 (new_agg t0).
 Proof.
   unfold stream, cycles. destruct (is_async x) eqn:Ha.
-  - now apply srun_async.
-  - apply (srun_sync x i t tm h Ha [] (new_agg t0) 0%nat []).
+  - apply (srun_async x i t tm (normalize h []) Ha [] (new_agg t0) 0%nat []).
+  - apply (srun_sync x i t tm (normalize h []) Ha [] (new_agg t0) 0%nat []).
 Qed.
 
-Definition collects (dl : bool) (o : op) : bool := match o with Collect w _ _ => includes w dl | _ => false end.
+(** without a cancelled collection of this reader nothing leaks *)
+Lemma leaky_calm dl i h : calm dl h = true -> forall rs,
+  cycles_async_leaky dl i h rs [] = cycles_async dl i h rs.
+Proof.
+  induction h as [|o r IH]; intros Hc rs; [reflexivity|].
+  cbn [calm forallb] in Hc. apply andb_true_iff in Hc as [Ho Hc]. fold (calm dl r) in Hc.
+  destruct o as [i' k v|c insts|c|w script fl]; cbn [cycles_async_leaky cycles_async]; try (now apply IH).
+  unfold collects_ok. destruct (includes w dl); cbn [andb] in *; [|now apply IH].
+  apply negb_true_iff in Ho. rewrite Ho. cbn [negb app]. f_equal. now apply IH.
+Qed.
+
+Definition collects (dl : bool) (o : op) : bool := match o with Collect w _ _ => collects_ok w dl | _ => false end.
 Lemma cycles_sync_length dl i h : forall cur, length (cycles_sync dl i h cur) = length (filter (collects dl) h).
 Proof.
   induction h as [|o r IH]; intros cur; [reflexivity|]. destruct o; cbn [cycles_sync filter collects]; auto.
-  destruct (includes who dl); cbn; auto.
+  destruct (collects_ok who dl); cbn; auto.
 Qed.
-Lemma cycles_async_length dl i h : forall rs, length (cycles_async dl i h rs) = length (filter (collects dl) h).
+Lemma cycles_leaky_length dl i h : forall rs carry, length (cycles_async_leaky dl i h rs carry) = length (filter (collects dl) h).
 Proof.
-  induction h as [|o r IH]; intros rs; [reflexivity|]. destruct o; cbn [cycles_async filter collects]; auto.
-  destruct (includes who dl); cbn; auto.
+  induction h as [|o r IH]; intros rs carry; [reflexivity|]. destruct o; cbn [cycles_async_leaky filter collects]; auto.
+  unfold collects_ok. destruct (includes who dl); cbn [andb]; auto. destruct (cancelled who); cbn; auto.
 Qed.
 
 Lemma stream_length x i t t0 tm h : length (stream x i t t0 tm h) = length (cycles x (is_delta t) i h).
@@ -170,8 +184,9 @@ Proof.
     destruct (Nat.eqb i' i); [|exact Heq]. now rewrite !app_assoc, Heq.
   - now apply (IH _ _ accD accC nd0 nc0).
   - now apply (IH _ _ accD accC nd0 nc0).
-  - destruct w as [|p]; [|destruct p as [p|p|]]; cbn [includes negb] in *.
-    + destruct Hin as [E|Hin].
+  - destruct (N.eqb_spec w 0) as [->|N0]; [|destruct (N.eqb_spec w 1) as [->|N1]; [|destruct (N.eqb_spec w 2) as [->|N2]]].
+    + change (collects_ok 0 true) with true in *. change (collects_ok 0 false) with true in *.
+      destruct Hin as [E|Hin].
       * inversion E; subst. exists 0%nat, 0%nat. cbn [length firstn concat]. rewrite !app_nil_r.
         repeat split; try lia. exact Heq.
       * destruct (IH [] [] (accD ++ curD) (accC ++ curC) (S nd0) (S nc0) ltac:(now rewrite !app_nil_r) nd nc Hin)
@@ -180,34 +195,36 @@ Proof.
         change (firstn (S (S nd')) (curD :: ?y)) with (curD :: firstn (S nd') y).
         change (firstn (S (S nc')) (curC :: ?y)) with (curC :: firstn (S nc') y).
         cbn [concat]. now rewrite !app_assoc.
-    + destruct (IH curD [] accD (accC ++ curC) nd0 (S nc0) ltac:(now rewrite app_nil_r) nd nc Hin)
-        as [nd' [nc' [E1 [E2 [L1 [L2 E3]]]]]].
-      exists nd', (S nc'). cbn [length]. repeat split; try lia.
-      change (firstn (S (S nc')) (curC :: ?y)) with (curC :: firstn (S nc') y).
-      cbn [concat]. now rewrite app_assoc.
-    + destruct (IH curD [] accD (accC ++ curC) nd0 (S nc0) ltac:(now rewrite app_nil_r) nd nc Hin)
-        as [nd' [nc' [E1 [E2 [L1 [L2 E3]]]]]].
-      exists nd', (S nc'). cbn [length]. repeat split; try lia.
-      change (firstn (S (S nc')) (curC :: ?y)) with (curC :: firstn (S nc') y).
-      cbn [concat]. now rewrite app_assoc.
-    + destruct (IH [] curC (accD ++ curD) accC (S nd0) nc0 ltac:(now rewrite app_nil_r) nd nc Hin)
+    + change (collects_ok 1 true) with true in *. change (collects_ok 1 false) with false in *.
+      destruct (IH [] curC (accD ++ curD) accC (S nd0) nc0 ltac:(now rewrite app_nil_r) nd nc Hin)
         as [nd' [nc' [E1 [E2 [L1 [L2 E3]]]]]].
       exists (S nd'), nc'. cbn [length]. repeat split; try lia.
       change (firstn (S (S nd')) (curD :: ?y)) with (curD :: firstn (S nd') y).
       cbn [concat]. now rewrite app_assoc.
+    + change (collects_ok 2 true) with false in *. change (collects_ok 2 false) with true in *.
+      destruct (IH curD [] accD (accC ++ curC) nd0 (S nc0) ltac:(now rewrite app_nil_r) nd nc Hin)
+        as [nd' [nc' [E1 [E2 [L1 [L2 E3]]]]]].
+      exists nd', (S nc'). cbn [length]. repeat split; try lia.
+      change (firstn (S (S nc')) (curC :: ?y)) with (curC :: firstn (S nc') y).
+      cbn [concat]. now rewrite app_assoc.
+    + (* a cancelled collection: nobody collects *)
+      assert (Hc : cancelled w = true) by (unfold cancelled; apply N.leb_le; lia).
+      unfold collects_ok in *. rewrite Hc, !andb_false_r in *.
+      now apply (IH _ _ accD accC nd0 nc0).
 Qed.
 
 Lemma running_delta x i t0 t0' tm tm' h : class_of x = CSyncAdd ->
-  RunningDelta (sync_points h 0 0) (map s_points (stream x i Delta t0 tm h)) (map s_points (stream x i Cumulative t0' tm' h)).
+  RunningDelta (sync_points (normalize h []) 0 0) (map s_points (stream x i Delta t0 tm h)) (map s_points (stream x i Cumulative t0' tm' h)).
 Proof.
   intros Hx.
   assert (Ha : is_async x = false /\ kop x = OpAdd) by (destruct x; try discriminate; auto).
   destruct Ha as [Ha Ho].
   intros nd nc k Hin.
-  destruct (sync_concat i h [] [] [] [] 0%nat 0%nat eq_refl nd nc Hin) as [nd' [nc' [E1 [E2 [L1 [L2 E3]]]]]].
+  assert (HcD : cycles x true i h = cycles_sync true i (normalize h []) []) by (unfold cycles; now rewrite Ha).
+  assert (HcC : cycles x false i h = cycles_sync false i (normalize h []) []) by (unfold cycles; now rewrite Ha).
+  set (hn := normalize h []) in *.
+  destruct (sync_concat i hn [] [] [] [] 0%nat 0%nat eq_refl nd nc Hin) as [nd' [nc' [E1 [E2 [L1 [L2 E3]]]]]].
   cbn [Nat.add app] in *. subst nd' nc'.
-  assert (HcD : cycles x true i h = cycles_sync true i h []) by (unfold cycles; now rewrite Ha).
-  assert (HcC : cycles x false i h = cycles_sync false i h []) by (unfold cycles; now rewrite Ha).
   rewrite nth_points, pget_get. unfold running. rewrite running_from_fold. rewrite !stream_arun. cbn [is_delta].
   rewrite HcD, HcC.
   change (map s_points ?l) with (map o_points l).
@@ -245,14 +262,13 @@ Proof. destruct x; intros H v; try reflexivity; contradiction. Qed.
 
 (** clause 3 *)
 Lemma async_cum x i t0 tm h : class_of x = CAsyncSum ->
-  AsyncCum (cycles_async false i h []) (map s_points (stream x i Cumulative t0 tm h)).
+  AsyncCum (cycles x false i h) (map s_points (stream x i Cumulative t0 tm h)).
 Proof.
   intros Hx.
   assert (Ha : is_async x = true /\ kop x = OpAdd /\ forall v, vecof x v = [v]) by (destruct x; try discriminate; auto).
   destruct Ha as [Ha [Ho Hv]].
-  assert (Hc : cycles x false i h = cycles_async false i h []) by (unfold cycles; now rewrite Ha).
-  split; [rewrite map_length, stream_length; cbn [is_delta]; now rewrite Hc|].
-  intros n k Hn. rewrite nth_points, pget_get, stream_arun. cbn [is_delta]. rewrite Hc.
+  split; [rewrite map_length, stream_length; cbn [is_delta]; reflexivity|].
+  intros n k Hn. rewrite nth_points, pget_get, stream_arun. cbn [is_delta].
   assert (Hcl : clears (cfg_of x Cumulative) = true) by (cbn; exact Ha).
   assert (Hp : is_presum_delta (cfg_of x Cumulative) = false) by (unfold is_presum_delta; cbn; now rewrite Ho).
   rewrite (arun_cycle_exact _ _ _ Hcl Hp); [| reflexivity | now rewrite map_length].
@@ -260,23 +276,22 @@ Proof.
 Qed.
 
 Lemma async_delta x i t0 tm h : class_of x = CAsyncSum ->
-  AsyncDelta (cycles_async true i h []) (map s_points (stream x i Delta t0 tm h)).
+  AsyncDelta (cycles x true i h) (map s_points (stream x i Delta t0 tm h)).
 Proof.
   intros Hx.
   assert (Ha : is_async x = true /\ kop x = OpAdd /\ forall v, vecof x v = [v]) by (destruct x; try discriminate; auto).
   destruct Ha as [Ha [Ho Hv]].
-  assert (Hc : cycles x true i h = cycles_async true i h []) by (unfold cycles; now rewrite Ha).
-  split; [rewrite map_length, stream_length; cbn [is_delta]; now rewrite Hc|].
-  intros n k Hn. rewrite nth_points, pget_get, stream_arun. cbn [is_delta]. rewrite Hc.
+  split; [rewrite map_length, stream_length; cbn [is_delta]; reflexivity|].
+  intros n k Hn. rewrite nth_points, pget_get, stream_arun. cbn [is_delta].
   assert (Hp : is_presum_delta (cfg_of x Delta) = true) by (unfold is_presum_delta; cbn; now rewrite Ho, Ha).
   rewrite (arun_presum_delta _ _ _ Hp 0%nat (new_agg t0) n k []);
     [| reflexivity | reflexivity | now rewrite map_length].
   rewrite nth_vm, (ofold_add_total x k _ Hv).
-  destruct (cyc_total k (nth n (cycles_async true i h []) [])) as [y|]; [|reflexivity].
+  destruct (cyc_total k (nth n (cycles x true i h) [])) as [y|]; [|reflexivity].
   cbn [one option_map]. do 2 f_equal. destruct n as [|n]; cbn [prev_total sel map ofold fold_right ovz].
   - cbn. now rewrite Z.sub_0_r.
   - rewrite nth_vm, (ofold_add_total x k _ Hv).
-    destruct (cyc_total k (nth n (cycles_async true i h []) [])) as [p|]; cbn; [now rewrite Z.add_opp_r | now rewrite Z.sub_0_r].
+    destruct (cyc_total k (nth n (cycles x true i h) [])) as [p|]; cbn; [now rewrite Z.add_opp_r | now rewrite Z.sub_0_r].
 Qed.
 
 (** clause 4 *)
@@ -296,11 +311,11 @@ Qed.
 
 
 Lemma gauge_sofar x i t0 tm h : class_of x = CSyncGauge ->
-  GaugeSoFar (cycles_sync false i h []) (map s_points (stream x i Cumulative t0 tm h)).
+  GaugeSoFar (cycles_sync false i (normalize h []) []) (map s_points (stream x i Cumulative t0 tm h)).
 Proof.
   intros Hx.
   assert (Ha : x = KGauge) by (destruct x; try discriminate; reflexivity). subst x.
-  assert (Hc : cycles KGauge false i h = cycles_sync false i h []) by reflexivity.
+  assert (Hc : cycles KGauge false i h = cycles_sync false i (normalize h []) []) by reflexivity.
   split; [rewrite map_length, stream_length; cbn [is_delta]; now rewrite Hc|].
   intros n k Hn. rewrite nth_points, pget_get, stream_arun. cbn [is_delta]. rewrite Hc.
   rewrite arun_sofar; try reflexivity; [|now rewrite map_length].
@@ -335,6 +350,9 @@ Proof.
   rewrite filter_erase; [reflexivity|]. apply Hn. now left.
 Qed.
 
+Lemma no_reg_firstn c n rs : no_reg c rs -> no_reg c (firstn n rs).
+Proof. intros H r Hr. apply H. rewrite <- (firstn_skipn n rs). apply in_or_app. now left. Qed.
+
 Lemma no_reg_step c rs o : no_reg c rs -> registers c o = false -> no_reg c (reg_step rs o).
 Proof.
   intros Hn Ho. destruct o as [| c' insts | c' |]; cbn [reg_step]; try exact Hn.
@@ -343,41 +361,65 @@ Proof.
   - intros r Hr. apply filter_In in Hr as [Hr _]. now apply Hn.
 Qed.
 
-Lemma cycles_async_erase dl i c h : forall rs, no_reg c rs -> forallb (fun o => negb (registers c o)) h = true ->
-  cycles_async dl i (erase_cb c h) rs = cycles_async dl i h rs.
+Lemma cycles_leaky_erase dl i c h : forall rs carry, no_reg c rs -> forallb (fun o => negb (registers c o)) h = true ->
+  cycles_async_leaky dl i (erase_cb c h) rs carry = cycles_async_leaky dl i h rs carry.
 Proof.
-  induction h as [|o r IH]; intros rs Hn Hh; [reflexivity|].
+  induction h as [|o r IH]; intros rs carry Hn Hh; [reflexivity|].
   cbn [forallb] in Hh. apply andb_true_iff in Hh as [Ho Hh]. apply negb_true_iff in Ho.
-  destruct o as [i' k v|c' insts|c'|w script fl]; cbn [erase_cb map cycles_async]; fold (erase_cb c r).
+  destruct o as [i' k v|c' insts|c'|w script fl]; cbn [erase_cb map cycles_async_leaky]; fold (erase_cb c r).
   - now apply IH.
   - apply IH; [|exact Hh]. now apply (no_reg_step c rs (Register c' insts)).
   - apply IH; [|exact Hh]. now apply (no_reg_step c rs (Unregister c')).
-  - rewrite IH by assumption. now rewrite delivered_erase.
+  - rewrite !delivered_erase by (try apply no_reg_firstn; exact Hn). rewrite !IH by assumption. reflexivity.
 Qed.
+
+(** state of the cycle functions after a prefix *)
+Definition sync_end (i : inst) (h : list op) (dl : bool) (cur : list (skey * Z)) : list (skey * Z) :=
+  fold_left (fun cur o => match o with
+                          | Measure i' k v => if Nat.eqb i' i then cur ++ [(k, v)] else cur
+                          | Collect w _ _ => if collects_ok w dl then [] else cur
+                          | _ => cur end) h cur.
+Definition leaky_end (i : inst) (h : list op) (dl : bool) (st : list reg * list (skey * Z)) : list reg * list (skey * Z) :=
+  fold_left (fun st o => match o with
+                         | Collect w s _ => if includes w dl then (if cancelled w then (fst st, snd st ++ delivered (firstn 1 (fst st)) s i) else (fst st, []))
+                                            else st
+                         | _ => (reg_step (fst st) o, snd st) end) h st.
 
 Lemma cycles_sync_app dl i h1 h2 : forall cur,
-  exists cur', cycles_sync dl i (h1 ++ h2) cur = cycles_sync dl i h1 cur ++ cycles_sync dl i h2 cur' /\
-               forall c h2', cycles_sync dl i (h1 ++ erase_cb c h2') cur = cycles_sync dl i h1 cur ++ cycles_sync dl i (erase_cb c h2') cur'.
+  cycles_sync dl i (h1 ++ h2) cur = cycles_sync dl i h1 cur ++ cycles_sync dl i h2 (sync_end i h1 dl cur).
 Proof.
-  induction h1 as [|o r IH]; intros cur.
-  - exists cur. split; reflexivity.
-  - destruct o as [i' k v|c' insts|c'|w script fl]; cbn [app cycles_sync].
-    + apply IH.
-    + apply IH.
-    + apply IH.
-    + destruct (includes w dl); [|apply IH].
-      destruct (IH []) as [cur' [H1 H2]]. exists cur'. split.
-      * now rewrite H1.
-      * intros c h2'. now rewrite H2.
+  induction h1 as [|o r IH]; intros cur; [reflexivity|].
+  destruct o as [i' k v|c' insts|c'|w script fl]; cbn [app cycles_sync sync_end fold_left]; try apply IH.
+  destruct (collects_ok w dl); [cbn [app]; f_equal|]; apply IH.
 Qed.
 
-Lemma cycles_async_app dl i h1 h2 : forall rs,
-  cycles_async dl i (h1 ++ h2) rs = cycles_async dl i h1 rs ++ cycles_async dl i h2 (fold_left reg_step h1 rs).
+Lemma cycles_leaky_app dl i h1 h2 : forall rs carry,
+  cycles_async_leaky dl i (h1 ++ h2) rs carry =
+  cycles_async_leaky dl i h1 rs carry ++
+  cycles_async_leaky dl i h2 (fst (leaky_end i h1 dl (rs, carry))) (snd (leaky_end i h1 dl (rs, carry))).
 Proof.
-  induction h1 as [|o r IH]; intros rs; [reflexivity|].
-  destruct o as [i' k v|c' insts|c'|w script fl]; cbn [app cycles_async fold_left]; rewrite IH; try reflexivity.
-  destruct (includes w dl); reflexivity.
+  induction h1 as [|o r IH]; intros rs carry; [reflexivity|].
+  destruct o as [i' k v|c' insts|c'|w script fl]; cbn [app cycles_async_leaky leaky_end fold_left fst snd]; try apply IH.
+  destruct (includes w dl); [|apply IH]. destruct (cancelled w); [apply IH|]. cbn [app]. f_equal. apply IH.
 Qed.
+
+Lemma leaky_end_regs i h dl : forall rs carry, fst (leaky_end i h dl (rs, carry)) = fold_left reg_step h rs.
+Proof.
+  induction h as [|o r IH]; intros rs carry; [reflexivity|].
+  destruct o as [i' k v|c' insts|c'|w script fl]; cbn [leaky_end fold_left fst snd reg_step]; try apply IH.
+  destruct (includes w dl); [destruct (cancelled w)|]; apply IH.
+Qed.
+
+(** normalisation only rewrites the [who] of some collections *)
+Lemma normalize_erase c h : forall rs, normalize (erase_cb c h) rs = erase_cb c (normalize h rs).
+Proof. induction h as [|o r IH]; intro rs; [reflexivity|]. destruct o; cbn [erase_cb map normalize reg_step]; fold (erase_cb c r); now rewrite IH. Qed.
+Lemma normalize_app h1 h2 : forall rs, normalize (h1 ++ h2) rs = normalize h1 rs ++ normalize h2 (fold_left reg_step h1 rs).
+Proof. induction h1 as [|o r IH]; intro rs; [reflexivity|]. destruct o; cbn [app normalize fold_left reg_step]; now rewrite IH. Qed.
+Lemma normalize_regs h : forall rs, fold_left reg_step (normalize h rs) rs = fold_left reg_step h rs.
+Proof. induction h as [|o r IH]; intro rs; [reflexivity|]. destruct o; cbn [normalize fold_left reg_step]; apply IH. Qed.
+Lemma normalize_registers c h : forall rs,
+  forallb (fun o => negb (registers c o)) (normalize h rs) = forallb (fun o => negb (registers c o)) h.
+Proof. induction h as [|o r IH]; intro rs; [reflexivity|]. destruct o; cbn [normalize forallb registers]; now rewrite IH. Qed.
 
 Lemma unregister_no_reg c rs : no_reg c (reg_step rs (Unregister c)).
 Proof.
@@ -388,12 +430,14 @@ Qed.
 Lemma cycles_unregistered x dl i c h1 h2 : forallb (fun o => negb (registers c o)) h2 = true ->
   cycles x dl i (h1 ++ Unregister c :: erase_cb c h2) = cycles x dl i (h1 ++ Unregister c :: h2).
 Proof.
-  intros Hh. unfold cycles. destruct (is_async x).
-  - rewrite !cycles_async_app. f_equal. cbn [cycles_async].
-    apply cycles_async_erase; [apply unregister_no_reg | exact Hh].
-  - destruct (cycles_sync_app dl i h1 (Unregister c :: h2) []) as [cur' [H1 H2]].
-    rewrite H1. change (Unregister c :: erase_cb c h2) with (erase_cb c (Unregister c :: h2)).
-    rewrite H2. f_equal. apply cycles_sync_erase.
+  intros Hh. unfold cycles. rewrite !normalize_app. cbn [normalize reg_step].
+  set (rs1 := filter (fun r => negb (fst r =? c)%N) (fold_left reg_step h1 [])).
+  rewrite normalize_erase. set (H2 := normalize h2 rs1).
+  assert (HH : forallb (fun o => negb (registers c o)) H2 = true) by (unfold H2; now rewrite normalize_registers).
+  destruct (is_async x).
+  - rewrite !cycles_leaky_app. f_equal. cbn [cycles_async_leaky]. rewrite !leaky_end_regs, normalize_regs.
+    apply cycles_leaky_erase; [apply (unregister_no_reg c) | exact HH].
+  - rewrite !cycles_sync_app. f_equal. cbn [cycles_sync]. apply cycles_sync_erase.
 Qed.
 
 Lemma unregistered_silent x i t t0 tm c h1 h2 : forallb (fun o => negb (registers c o)) h2 = true ->
@@ -404,8 +448,8 @@ Proof. intros Hh. rewrite !stream_arun. now rewrite cycles_unregistered. Qed.
 Lemma never_registered_silent x i t t0 tm c h : forallb (fun o => negb (registers c o)) h = true ->
   stream x i t t0 tm (erase_cb c h) = stream x i t t0 tm h.
 Proof.
-  intros Hh. rewrite !stream_arun. f_equal. f_equal. unfold cycles. destruct (is_async x).
-  - apply cycles_async_erase; [intros r []| exact Hh].
+  intros Hh. rewrite !stream_arun. f_equal. f_equal. unfold cycles. rewrite normalize_erase. destruct (is_async x).
+  - apply cycles_leaky_erase; [intros r []| now rewrite normalize_registers].
   - apply cycles_sync_erase.
 Qed.
 
@@ -432,44 +476,75 @@ Proof.
     + intros j Hj. apply Hall. lia.
 Qed.
 
+Lemma cycles_async_calm x dl i h : is_async x = true -> calm dl (normalize h []) = true ->
+  cycles x dl i h = cycles_async dl i (normalize h []) [].
+Proof. intros Ha Hc. unfold cycles. rewrite Ha. now apply leaky_calm. Qed.
+
 Lemma gauge_last : forall x i h t0 t0' tm tm',
   (class_of x = CSyncGauge ->
-     GaugeCycle (cycles_sync true i h []) (map s_points (stream x i Delta t0 tm h)) /\
-     GaugeSoFar (cycles_sync false i h []) (map s_points (stream x i Cumulative t0' tm' h))) /\
+     GaugeCycle (cycles_sync true i (normalize h []) []) (map s_points (stream x i Delta t0 tm h)) /\
+     GaugeSoFar (cycles_sync false i (normalize h []) []) (map s_points (stream x i Cumulative t0' tm' h))) /\
   (class_of x = CAsyncGauge ->
-     GaugeCycle (cycles_async true i h []) (map s_points (stream x i Delta t0 tm h)) /\
-     GaugeCycle (cycles_async false i h []) (map s_points (stream x i Cumulative t0' tm' h))).
+     (calm true (normalize h []) = true ->
+        GaugeCycle (cycles_async true i (normalize h []) []) (map s_points (stream x i Delta t0 tm h))) /\
+     (calm false (normalize h []) = true ->
+        GaugeCycle (cycles_async false i (normalize h []) []) (map s_points (stream x i Cumulative t0' tm' h)))).
 Proof.
   intros. split; intros Hx.
   - split; [|now apply gauge_sofar].
-    replace (cycles_sync true i h []) with (cycles x (is_delta Delta) i h) by (destruct x; try discriminate; reflexivity).
+    replace (cycles_sync true i (normalize h []) []) with (cycles x (is_delta Delta) i h) by (destruct x; try discriminate; reflexivity).
     apply gauge_cycle. right. now split.
-  - split.
-    + replace (cycles_async true i h []) with (cycles x (is_delta Delta) i h) by (destruct x; try discriminate; reflexivity).
-      apply gauge_cycle; now left.
-    + replace (cycles_async false i h []) with (cycles x (is_delta Cumulative) i h) by (destruct x; try discriminate; reflexivity).
-      apply gauge_cycle; now left.
+  - assert (Ha : is_async x = true) by (destruct x; try discriminate; reflexivity).
+    split; intro Hc; rewrite <- (cycles_async_calm x _ i h Ha Hc).
+    + apply (gauge_cycle x i Delta); now left.
+    + apply (gauge_cycle x i Cumulative); now left.
+Qed.
+
+Lemma async_exact : forall x i h t0 t0' tm tm', class_of x = CAsyncSum ->
+  (calm true (normalize h []) = true ->
+     AsyncDelta (cycles_async true i (normalize h []) []) (map s_points (stream x i Delta t0 tm h))) /\
+  (calm false (normalize h []) = true ->
+     AsyncCum (cycles_async false i (normalize h []) []) (map s_points (stream x i Cumulative t0' tm' h))).
+Proof.
+  intros x i h t0 t0' tm tm' Hx.
+  assert (Ha : is_async x = true) by (destruct x; try discriminate; reflexivity).
+  split; intro Hc; rewrite <- (cycles_async_calm x _ i h Ha Hc); [now apply async_delta | now apply async_cum].
 Qed.
 
 Lemma points_canonical : forall x i t t0 tm h,
   AllSorted (stream x i t t0 tm h) /\
-  length (stream x i t t0 tm h) = length (filter (collects (is_delta t)) h).
+  length (stream x i t t0 tm h) = length (filter (collects (is_delta t)) (normalize h [])).
 Proof.
   intros. split; [apply all_sorted|]. rewrite stream_length. unfold cycles.
-  destruct (is_async x); [apply cycles_async_length | apply cycles_sync_length].
+  destruct (is_async x); [apply cycles_leaky_length | apply cycles_sync_length].
 Qed.
 
 (** * A callback that returns an error changes nothing but the error report *)
 Definition clear_fail (h : list op) : list op :=
   map (fun o => match o with Collect w s _ => Collect w s [] | _ => o end) h.
 
+Lemma normalize_clear_fail h : forall rs, normalize (clear_fail h) rs = clear_fail (normalize h rs).
+Proof. induction h as [|o r IH]; intro rs; [reflexivity|]. destruct o; cbn [clear_fail map normalize reg_step]; fold (clear_fail r); now rewrite IH. Qed.
 Lemma cycles_sync_clear_fail dl i h : forall cur, cycles_sync dl i (clear_fail h) cur = cycles_sync dl i h cur.
 Proof. induction h as [|o r IH]; intros cur; [reflexivity|]. destruct o; cbn [clear_fail map cycles_sync]; fold (clear_fail r); rewrite ?IH; reflexivity. Qed.
-Lemma cycles_async_clear_fail dl i h : forall rs, cycles_async dl i (clear_fail h) rs = cycles_async dl i h rs.
-Proof. induction h as [|o r IH]; intros rs; [reflexivity|]. destruct o; cbn [clear_fail map cycles_async reg_step]; fold (clear_fail r); rewrite ?IH; reflexivity. Qed.
+Lemma cycles_leaky_clear_fail dl i h : forall rs carry, cycles_async_leaky dl i (clear_fail h) rs carry = cycles_async_leaky dl i h rs carry.
+Proof. induction h as [|o r IH]; intros rs carry; [reflexivity|]. destruct o; cbn [clear_fail map cycles_async_leaky reg_step]; fold (clear_fail r); rewrite ?IH; reflexivity. Qed.
 
 Lemma callback_error_harmless x i t t0 tm h : stream x i t t0 tm (clear_fail h) = stream x i t t0 tm h.
 Proof.
-  rewrite !stream_arun. f_equal. f_equal. unfold cycles.
-  destruct (is_async x); [apply cycles_async_clear_fail | apply cycles_sync_clear_fail].
+  rewrite !stream_arun. f_equal. f_equal. unfold cycles. rewrite normalize_clear_fail.
+  destruct (is_async x); [apply cycles_leaky_clear_fail | apply cycles_sync_clear_fail].
+Qed.
+
+(** * Finding F-C08-1: a collection with a cancelled context leaves the first callback's observations
+    behind.  Witness: callback 7 on observable counter 0; it observes 10 during a cancelled Collect of
+    the delta reader, then 20 during a normal one: the delta reader reports 30. *)
+Definition leak_h : list op :=
+  [Register 7%N [0%nat]; Collect 4 [(7%N, 0%nat, 0%N, 10)] []; Collect 1 [(7%N, 0%nat, 0%N, 20)] []].
+Lemma async_exact_refuted :
+  exists x i h, class_of x = CAsyncSum /\
+    ~ AsyncDelta (cycles_async true i (normalize h []) []) (map s_points (stream x i Delta 0%N (fun n => N.of_nat (S n)) h)).
+Proof.
+  exists KObsCounter, 0%nat, leak_h. split; [reflexivity|]. intros [_ H].
+  specialize (H 0%nat 0%N ltac:(vm_compute; lia)). vm_compute in H. discriminate.
 Qed.
